@@ -45,7 +45,14 @@ package bitswap
 // The multihash "hasher" through which every Bitswap block passes. $Verified: the verifier that the
 // pending request registered accepted (container, identifier). The digest - which Bitswap compares
 // with the requested CID - is set only then, to the identifier extracted from the block's own CID;
-// every other outcome is an error and leaves the digest as it was.
+// every other outcome is an error and leaves the digest as it was. The digest has the length this hasher
+// was registered with: the multihash layer cuts a digest down to the length named by the *message's*
+// prefix, so a longer identifier of another block type (sample: height|row|col) accepted by a hasher
+// registered for a shorter one (row: height|row) would come out as a different, pending identifier
+// without that request's verifier ever having run.
+//@ pure func cidMhType(c cid.Cid) uint64
+//@ extern (github.com/ipfs/go-cid.Cid).Prefix
+//@   ensures result.MhType == cidMhType(c)
 //@ func (*hasher).write
 //@   property C10
 //@   requires h != nil && !$Verified
@@ -56,6 +63,7 @@ package bitswap
 //@   ensures err == nil ==> $Verified
 //@   ensures err != nil ==> h.sum == old(h.sum)
 //@   checks err == nil ==> h.sum == id
+//@   checks err == nil ==> len(id) == h.IDSize && cidMhType(cid) == h.MhCode
 
 //@ func (*hasher).Write
 //@   property C10
